@@ -58,6 +58,7 @@ type Engine struct {
 	undecided []string // keyed functions/loops that no longer exist
 	broken    []string // engine-level problems (spec does not type-check, ...)
 	mirrorSrc map[string]string
+	warnings  []string
 }
 
 func newEngine() *Engine {
@@ -104,13 +105,10 @@ func (eng *Engine) overlay() (map[string][]byte, error) {
 			return nil, err
 		}
 		inRepo := filepath.Join(dir, contractFileName)
-		if cur, err := os.ReadFile(inRepo); err == nil {
-			if !bytes.Equal(cur, mirror) {
-				eng.broken = append(eng.broken, fmt.Sprintf("contract file %s differs from its mirror %s", inRepo, ps.File))
-			}
-		} else {
-			ov[inRepo] = mirror
+		if cur, err := os.ReadFile(inRepo); err == nil && !bytes.Equal(cur, mirror) {
+			eng.warnings = append(eng.warnings, fmt.Sprintf("contract file %s differs from its mirror %s; the mirror is used", inRepo, ps.File))
 		}
+		ov[inRepo] = mirror
 		ov[filepath.Join(dir, preludeFileName)] = []byte(preludeSrc(ps.PkgName, ps) + eng.lemmaStubs(ps))
 	}
 	return ov, nil
@@ -386,7 +384,17 @@ func (eng *Engine) unitOf(fn *types.Func) *FuncUnit {
 	return nil
 }
 
-func (eng *Engine) isGhostFunc(fn *types.Func) bool { _, ok := eng.ghosts[fn]; return ok }
+func (eng *Engine) isGhostFunc(fn *types.Func) bool {
+	_, ok := eng.ghosts[fn]
+	if !ok && os.Getenv("GOVC_DBG") != "" {
+		fmt.Fprintf(os.Stderr, "not ghost: %s (%p) pkg %p; known:", fn.FullName(), fn, fn.Pkg())
+		for g := range eng.ghosts {
+			fmt.Fprintf(os.Stderr, " %s(%p pkg %p)", g.FullName(), g, g.Pkg())
+		}
+		fmt.Fprintln(os.Stderr)
+	}
+	return ok
+}
 func (eng *Engine) ghostDecl(fn *types.Func) *ghostInfo { return eng.ghosts[fn] }
 
 func (eng *Engine) inModule(fn *types.Func) bool {
